@@ -154,17 +154,21 @@ CHECKS = {
  "C04": ("proof", "PARTIAL. Theorems in coq/Props/C04.v: the ledger bound `remaining <= number of items` holds initially and is kept by "
          "the evaluation of every parser from every state (through Reach.eval_reach_all), the item list is never changed; with "
          "it, the repetition loops (many/collect, some, count, last) never exhaust the fuel the model gives them -- the "
-         "consumed-something rule makes `len` strictly decrease -- for every inner parser. C04_flat_fragment_total / "
-         "C04_flat_level_total: the whole flat fragment (flags, arguments, positionals, construct!, optional/many/some/count/last/"
-         "fallback, nested) on full-scope states and every conventional flat level on every argv yield a value or an error: no "
-         "panic outcome, no fuel exhaustion. NOT theorems: termination of the "
-         "adjacent-group retry loop (fuelled; FUEL is a distinct outcome in the differential run), absence of panics (explicit "
-         "panic outcomes at every slicing/subtraction/unreachable site of the model are compared with the implementation; one "
-         "class is a known finding, two were repaired by fix: commits), purity (by construction in Gallina; tied by re-running). "
+         "consumed-something rule makes `len` strictly decrease -- for every inner parser. C04_total_without_adjacent: for "
+         "EVERY definition built without `adjacent` (every combinator of the model, arbitrarily nested: flags, arguments, "
+         "positionals, any, subcommands, construct!, alternatives, optional/many/some/collect/count/last, fallback, guard, parse, "
+         "map, hide, usage, group_help, pure, fail, boxed) whose named items have a name or variable and whose levels pass "
+         "check_invariants (`oko`, decidable, evaluated on every generated definition: about 70% of the cases), on every argv and "
+         "environment run_inner yields a value, a document or an error: no panic outcome, no fuel exhaustion (mutual induction "
+         "over the parser; states stay well-formed because they only move by the legal steps of Reach.v). "
+         "C04_flat_fragment_total / C04_flat_level_total: the same through the token-list interpreter. NOT theorems: adjacent "
+         "groups and adjacent commands (retry loop fuelled; FUEL and the panic sites are explicit outcomes compared with the "
+         "implementation; one class is a known finding, two were repaired by fix: commits), the panic sites of rendering and "
+         "completion (compared per run; one repaired), purity (by construction in Gallina; tied by re-running). "
          "Implementation side: every case under catch_unwind + watchdog; `twice` (same OptionParser, same vector) and `history` "
          "(one OptionParser: parse, completion at revisions 0/1/7/8/9 with and without an application name, html/markdown/"
          "manpage; two rounds must be identical).",
-         "4/C04", "Rocq proof (ledger bound invariant, loop termination) + differential with explicit panic/fuel outcomes + run histories under catch_unwind"),
+         "4/C04", "Rocq proof (totality of every definition without adjacent by mutual induction, ledger/scope invariants, loop termination) + differential with explicit panic/fuel outcomes + run histories under catch_unwind"),
  "C01": ("proof", "PARTIAL. coq/Model/Conv.v states the declared grammar: `level` (conventional fragment: uniquely named switches/flags/"
          "required flags/counted/repeated flags/arguments x {required, optional, many, some, fallback, last}, positional suffix, "
          "subcommand trees with aliases), `compile` (the combinator term) and `denote` (one left-to-right attribution scan giving "
